@@ -53,7 +53,7 @@
     * the one outcome `Spec.eval` has on the fragment and the mini evaluator has not is
       `unmodelled "catch: message …"`: the handler of `try … catch` would receive the text of a
       built-in error whose value preview the message model does not compute (a float without
-      modelled digits); it is absorbing, the theorems state it as an alternative;
+      modelled digits); the theorems state it as an alternative;
     * THE CONVERSE FAILS, and this is the one genuine difference between the two evaluators:
       `Spec.eval` is lazy in the outputs of a sub-evaluation (sequencing processes the outputs
       produced before the fuel ran out; a definite error raised downstream ends the stream), the mini
@@ -68,13 +68,15 @@
 
   SIDE CONDITIONS of the translation (`tieOK`, decidable; `Prog.WF` from Model/MiniVM.lean):
   function `i` calls only `f0 … fi` (jq's scoping of top-level definitions; the mini development
-  allows any call), every constant has a jq literal that reads back as the constant (`null`,
-  booleans, integers, strings, `[]`), every `index` key is a string (`.name`).  The evaluation
-  context has no jq-defined builtin called `empty/0` or `error/0` (`NoShadow`; true of builtin.jq).
+  allows any call), every constant has a jq literal that reads back as the constant (exactly `null`,
+  booleans, integers, strings, `[]`: `constants_with_a_literal`), every `index` key is a string (`.name`).  The evaluation
+  context has no jq-defined builtin called `empty/0` or `error/0` (`NoShadow`; true of the shipped
+  builtin.jq: `shipped_builtins_do_not_shadow`).
 
-  Proofs: Proofs/MiniSpec{Rel,Loop,Env,Tie,Prog}.lean.
+  Proofs: Proofs/MiniSpec{Rel,Loop,Env,Tie,Lit,Prog}.lean.
 -/
 import Gojq.Proofs.MiniSpecProg
+import Gojq.Generated.BuiltinDefs
 namespace Gojq.C01Tie
 open Gojq Gojq.MiniVM Gojq.MiniSpec
 
@@ -89,6 +91,19 @@ theorem toSyntax_is_reading (p : Prog) (hok : tieOK p = true) :
   ⟨trProg_toSyntax p hok, tieOK_ordered p hok, rfl⟩
 
 example : tieOK exTie = true ∧ tieOK exProg = true ∧ tieOK exForeach = true := by decide
+
+/-- The side condition on constants is syntactic: a constant has a jq literal that `Spec.eval` reads
+    back as that constant exactly when it is `null`, a boolean, an INTEGER (any size:
+    `parseNumberLit (toString i) = some (.int i)`), a string or `[]`. -/
+theorem constants_with_a_literal (c : V) :
+    litOK c = true ↔ (c = .null ∨ (∃ b, c = .bool b) ∨ (∃ i, c = .num (.int i)) ∨ (∃ s, c = .str s) ∨ c = .arr []) :=
+  litOK_iff c
+
+/-- The hypothesis `NoShadow` of the theorems below holds of the evaluation context the `eval` stream
+    runs `Spec.eval` in: the jq-defined builtins shipped in builtin.go (regenerated on every run,
+    Generated/BuiltinDefs.lean) define neither `empty/0` nor `error/0`. -/
+theorem shipped_builtins_do_not_shadow : NoShadow ⟨⟨Gojq.Generated.Builtins.builtinGo⟩⟩ :=
+  ⟨List.find?_eq_none.mpr (by decide +kernel), List.find?_eq_none.mpr (by decide +kernel)⟩
 
 /-- Agreement.  For every well-scoped mini program `p` with ordered definitions and every jq program
     `def f0(g): bodies[0]; …; main` that is compiled as `p`, every input state without tracking
